@@ -235,6 +235,64 @@ def respond (hooks : List Hook) (run : Nat → Binding → Outcome) (path : Str)
     let r := eventHandler hooks run (detect path).1 (detect path).2
     (.review (buildReview uid r.1), r.2)
 
+/-! ## how the hook process ends, and what the executor makes of it
+
+`Hook.Run` starts the hook with `Executor.RunAndLogLines`: `err := e.cmd.Run()`, and `if err != nil`
+the run is a failure (`Hook.Run` returns the error, `handleRunHook` ends the task with `Fail`). The
+response file is read only afterwards. -/
+
+/-- how the hook process ended (the `syscall.WaitStatus` behind `cmd.ProcessState`): it exited with
+a status (0–255), or a signal terminated it (SIGKILL of the OOM killer or of a `timeout` wrapper,
+SIGTERM, SIGSEGV of a binary hook …) -/
+inductive Ending where
+  | exited (status : Nat)
+  | signaled (signal : Nat)
+  deriving DecidableEq, Repr
+
+/-- `os.ProcessState.ExitCode()`: the exit status; -1 when the process was terminated by a signal -/
+def goExitCode : Ending → Int
+  | .exited s => (s : Int)
+  | .signaled _ => -1
+
+/-- `os.ProcessState.Success()`: `status.Exited() && status.ExitStatus() == 0` -/
+def goSuccess : Ending → Bool
+  | .exited s => s == 0
+  | .signaled _ => false
+
+/-- `err := e.cmd.Run()`: `exec.Cmd.Wait` returns an `*exec.ExitError` exactly when
+`!state.Success()` (errors of starting the process and of copying its output are not modelled: the
+generated hook file is executable; what it prints on stdout / stderr — the harness makes it print
+there — only words the error) -/
+def cmdRunErr (e : Ending) : Bool := !goSuccess e
+
+/-- `Executor.RunAndLogLines` returns an error exactly when `cmd.Run` did (`if err != nil`), and
+`Hook.Run` hands it on (`if err != nil`) -/
+def executorFails (e : Ending) : Bool := cmdRunErr e
+
+/-- "the hook exited zero", as the property says it -/
+def Ending.exitedZero : Ending → Bool
+  | .exited 0 => true
+  | _ => false
+
+/-- one run of a hook as the generator scripts it: how the process ends, what it has written to its
+response file by then, and whether its other output files can be applied -/
+structure RunDecl where
+  ending : Ending
+  file : FileContent
+  othersOk : Bool
+  deriving DecidableEq, Repr
+
+/-- the run as the code sees it: `exitZero` = `RunAndLogLines` returned no error -/
+def RunDecl.seen (d : RunDecl) : Outcome := ⟨!executorFails d.ending, d.file, d.othersOk⟩
+
+/-- the run as the property reads it: `exitZero` = the process exited, with status 0 -/
+def RunDecl.spec (d : RunDecl) : Outcome := ⟨d.ending.exitedZero, d.file, d.othersOk⟩
+
+/-- do `RunAndLogLines` and `Hook.Run` test the error of the run with `err != nil`? Regenerated from
+the sources on every run. -/
+def runErrorChecked : Bool :=
+  ShellOp.Facts.c14ExecRunFailCond == "err != nil" && ShellOp.Facts.c14HookRunFailCond == "err != nil"
+
 /-! ## the response files of overlapping hook runs
 
 Admission requests are served concurrently by the HTTP server and every request runs its hook
